@@ -29,6 +29,7 @@ type Case struct {
 	OK    bool   `json:"ok"`
 	Neg   bool   `json:"neg"`
 	After int64  `json:"after"` // > 0: second script of a sequential RunT call whose first script leaves at t0 + after
+	Ign   bool   `json:"ign"`   // run by a driver that ignores SIGQUIT itself (children start out ignoring it); informational
 	Via   string `json:"via"`   // "run": through testscript.Run with a real *testing.T (informational: the whole driver runs in that mode)
 }
 
@@ -43,6 +44,7 @@ type Obs struct {
 	Neg      bool   `json:"neg"`
 	After    int64  `json:"after"`
 	Via      string `json:"via"`
+	Ign      bool   `json:"ign"`
 	Start    int64  `json:"start"`
 	Sig      int64  `json:"sig"`
 	SelfExit int64  `json:"selfexit"`
@@ -412,7 +414,13 @@ func runGroup(g group, self, work string, col *collector, jm *jitterMon, spawnMa
 	if g.after > 0 {
 		predID = 1000000 + g.cases[0].ID
 		p := filepath.Join(dir, fmt.Sprintf("a%d.txt", g.cases[0].ID))
-		line := fmt.Sprintf("exec %s child -sock %s -id %d -x %d -onint die -status 0\n", self, col.path, predID, g.after)
+		// the script in front leaves on its own at `after`; when that is later than the interrupt it has to sit the
+		// interrupt out
+		predInt := "die"
+		if gr := max(100, g.D/20); g.after >= g.D-2*gr {
+			predInt = "ignore"
+		}
+		line := fmt.Sprintf("exec %s child -sock %s -id %d -x %d -onint %s -status 0\n", self, col.path, predID, g.after, predInt)
 		if err := os.WriteFile(p, []byte(line), 0o644); err != nil {
 			vutil.Fatalf("write script: %v", err)
 		}
@@ -492,7 +500,7 @@ func runGroup(g group, self, work string, col *collector, jm *jitterMon, spawnMa
 		root.mu.Lock()
 		st := root.subs[names[i]]
 		root.mu.Unlock()
-		o := Obs{ID: c.ID, Label: c.Label, D: g.D, X: c.X, OnInt: c.OnInt, OK: c.OK, Neg: c.Neg, After: c.After, Via: c.Via,
+		o := Obs{ID: c.ID, Label: c.Label, D: g.D, X: c.X, OnInt: c.OnInt, OK: c.OK, Neg: c.Neg, After: c.After, Via: c.Via, Ign: c.Ign,
 			Start: cl.start, Sig: cl.sig, SelfExit: cl.selfexit, Last: cl.last, RunDone: rel(runDone),
 			SRun: srun, Gap: cl.gap, Beats: cl.beats, CLog: cl.raw, SigName: cl.signame, Pid: cl.pid, Group: g.id, Verdict: "none", Msg: "none", Done: -1}
 		if o.SigName == "" {
